@@ -350,7 +350,7 @@ func main() {
 	dir := flag.String("dir", "/repo", "module directory")
 	tags := flag.String("tags", "", "build tags")
 	out := flag.String("o", "", "output file")
-	stdpk := flag.String("std", "crypto/subtle,encoding/binary", "std packages whose reached functions are dumped with bodies")
+	stdpk := flag.String("std", "crypto/subtle,encoding/binary,bytes", "std packages whose reached functions are dumped with bodies")
 	flag.Parse()
 
 	cfg := &packages.Config{
